@@ -120,6 +120,7 @@ CONTENTS = [
     [("span", {"style": "emph"}, ["styled"]), " after"],
     [("span", {"tts:fontStyle": "italic", "region": "low"}, ["low"]), ("br",), "rest"],
     ["x", ("span", {"tts:fontStyle": "normal"}, ["y"]), "z"],
+    [("span", {"tts:fontStyle": "italic"}, ["Hello"]), " ", ("span", {"tts:fontWeight": "bold"}, ["world"])],
 ]
 
 
